@@ -12,7 +12,7 @@ import lower
 CBMC_CHECKS = ['--bounds-check', '--pointer-check', '--pointer-overflow-check', '--signed-overflow-check',
                '--div-by-zero-check', '--undefined-shift-check', '--pointer-primitive-check']
 SOLVER = ['--sat-solver', 'cadical']
-TIMEOUT_S = int(os.environ.get('VS_TIMEOUT', '900'))
+TIMEOUT_S = int(os.environ.get('VS_TIMEOUT', '2400'))
 MEM_BYTES = int(os.environ.get('VS_MEM_GB', '12')) * (1 << 30)
 
 
